@@ -126,7 +126,12 @@ func sxInt(n *sx) (int64, bool) {
 
 // ---------- query construction ----------
 
+const dsigPath = "github.com/russellhaering/goxmldsig"
+
 type qnode struct {
+	ikind string   // interface inputs that the replayer can realise: keystore, certstore, signer, canon
+	aux   []*qnode // keystore: kpCert bytes
+	auxT  []*Term  // keystore: kpKey == nil, kpErr == nil
 	kind   string // ptr, struct, string, int, bool, slice, iface, clock, skip
 	t      types.Type
 	term   *Term
@@ -243,6 +248,27 @@ func (r *replayer) build(t types.Type, term *Term, depth int) *qnode {
 	case *types.Interface:
 		n.kind = "iface"
 		r.q(Eq(term, r.w.INil()))
+		switch {
+		case isNamed(t, dsigPath, "X509KeyStore"):
+			n.ikind = "keystore"
+			_, k1 := r.w.Reg.funcs["ghost:kpKey"]
+			_, k2 := r.w.Reg.funcs["ghost:kpErr"]
+			_, k3 := r.w.Reg.funcs["ghost:kpCert"]
+			if k1 && k2 && k3 {
+				kk := Eq(r.w.Reg.Apply("ghost:kpKey", term), IntT(0))
+				ke := Eq(r.w.Reg.Apply("ghost:kpErr", term), r.w.INil())
+				r.q(kk)
+				r.q(ke)
+				n.auxT = []*Term{kk, ke}
+				n.aux = []*qnode{r.build(types.NewSlice(types.Typ[types.Uint8]), r.w.Reg.Apply("ghost:kpCert", term), depth+1)}
+			}
+		case isNamed(t, dsigPath, "X509CertificateStore"):
+			n.ikind = "certstore"
+		case isNamed(t, "crypto", "Signer"):
+			n.ikind = "signer"
+		case isNamed(t, dsigPath, "Canonicalizer"):
+			n.ikind = "canon"
+		}
 	case *types.Map:
 		// a map is concretised at the candidate keys (the string-typed parameters of the function)
 		n.kind = "map"
@@ -403,6 +429,27 @@ func (r *replayer) goValue(m *model, n *qnode, pkgName string) string {
 	case "iface":
 		v := r.value(m, Eq(n.term, r.w.INil()))
 		if v != nil && v.atom == "false" {
+			switch n.ikind {
+			case "keystore":
+				key, cert, kerr := "verifTestKey", "nil", "nil"
+				if len(n.auxT) == 2 {
+					if kv := r.value(m, n.auxT[0]); kv != nil && kv.atom == "true" {
+						key = "nil"
+					}
+					if ev := r.value(m, n.auxT[1]); ev != nil && ev.atom == "false" {
+						kerr = `errors.New("verif: key store error")`
+					}
+					cert = r.goValue(m, n.aux[0], pkgName)
+				}
+				r.notes = append(r.notes, "dsig.X509KeyStore input realised by a stub returning the model's (key present?, certificate bytes, error)")
+				return fmt.Sprintf("verifKS{key: %s, cert: %s, err: %s}", key, cert, kerr)
+			case "certstore":
+				return "&dsig.MemoryX509CertificateStore{}"
+			case "signer":
+				return "verifTestKey"
+			case "canon":
+				return "dsig.MakeC14N11Canonicalizer()"
+			}
 			r.notes = append(r.notes, "interface-typed input "+tname(n.t)+" is non-nil in the model but left nil (not concretised)")
 		}
 		return "nil"
@@ -422,7 +469,24 @@ type goGen struct {
 
 func (g *goGen) typ(st *SType) string { return st.String() }
 
-var ghostRuntime = map[string]bool{"parseOK": true, "instantOf": true, "now": true, "instant": true, "isUTC": true, "b64ok": true, "b64dec": true, "b64enc": true}
+func (g *goGen) helperKeys() map[string]bool {
+	m := map[string]bool{}
+	for k := range g.helper {
+		m[k] = true
+	}
+	return m
+}
+
+// dropHelpersExcept removes the helpers generated while translating a clause that turned out to be untranslatable.
+func (g *goGen) dropHelpersExcept(keep map[string]bool) {
+	for k := range g.helper {
+		if !keep[k] {
+			delete(g.helper, k)
+		}
+	}
+}
+
+var ghostRuntime = map[string]bool{"kpKey": true, "kpCert": true, "kpErr": true, "x509ok": true, "x509NotBefore": true, "x509NotAfter": true, "parseOK": true, "instantOf": true, "now": true, "instant": true, "isUTC": true, "b64ok": true, "b64dec": true, "b64enc": true}
 
 func (g *goGen) expr(e SExpr) string {
 	switch n := e.(type) {
@@ -436,6 +500,12 @@ func (g *goGen) expr(e SExpr) string {
 			return n.Val
 		}
 	case *SIdent:
+		// a package-level name of another repository package (the clause comes from that package's contract file)
+		if home := g.w.specPkg[g.sf]; home != nil && home.Name() != g.pkg {
+			if o := home.Scope().Lookup(n.Name); o != nil && o.Exported() {
+				return home.Name() + "." + n.Name
+			}
+		}
 		return n.Name
 	case *SUnary:
 		return "(" + n.Op + g.expr(n.X) + ")"
@@ -446,9 +516,28 @@ func (g *goGen) expr(e SExpr) string {
 			return "(!(" + a + ") || (" + b + "))"
 		case "<==>":
 			return "((" + a + ") == (" + b + "))"
+		case "==", "!=":
+			neg := ""
+			if n.Op == "!=" {
+				neg = "!"
+			}
+			if isNilLit(n.Y) {
+				return "(" + neg + "verifIsNil(" + a + "))"
+			}
+			if isNilLit(n.X) {
+				return "(" + neg + "verifIsNil(" + b + "))"
+			}
+			if !nativeCmp(n.X) && !nativeCmp(n.Y) {
+				// values of unknown static type (slices, structs with slices, mixed interface types)
+				return "(" + neg + "verifEqAny(" + a + ", " + b + "))"
+			}
 		}
 		return "(" + a + " " + n.Op + " " + b + ")"
 	case *SCond:
+		if safeEager(n.A) && safeEager(n.B) {
+			// both branches are total (literals, names, arithmetic): a typed, eagerly evaluated conditional
+			return "verifTern(" + g.expr(n.C) + ", " + g.expr(n.A) + ", " + g.expr(n.B) + ")"
+		}
 		return "verifIte(" + g.expr(n.C) + ", func() any { return " + g.expr(n.A) + " }, func() any { return " + g.expr(n.B) + " })"
 	case *SSelect:
 		return g.expr(n.X) + "." + n.Sel
@@ -546,6 +635,51 @@ func (g *goGen) expr(e SExpr) string {
 	return "false"
 }
 
+func isNilLit(e SExpr) bool {
+	l, ok := e.(*SLit)
+	return ok && l.Kind == "nil"
+}
+
+// nativeCmp: the operand is a literal, arithmetic, a length or a boolean formula, so Go's == applies directly (and an
+// untyped constant keeps its flexibility).
+func nativeCmp(e SExpr) bool {
+	switch n := e.(type) {
+	case *SLit:
+		return true
+	case *SUnary:
+		return true
+	case *SBinary:
+		return true
+	case *SQuant, *SIs:
+		return true
+	case *SCond:
+		return nativeCmp(n.A) || nativeCmp(n.B)
+	case *SCall:
+		if id, ok := n.Fun.(*SIdent); ok {
+			switch id.Name {
+			case "len", "int", "int64", "now", "instant", "instantOf", "parseOK", "isUTC", "b64ok", "x509ok", "x509NotBefore", "x509NotAfter":
+				return true
+			}
+		}
+	}
+	return false
+}
+
+// safeEager: evaluating the expression cannot panic (no selection through a pointer, no indexing, no call).
+func safeEager(e SExpr) bool {
+	switch n := e.(type) {
+	case *SLit, *SIdent:
+		return true
+	case *SUnary:
+		return safeEager(n.X)
+	case *SBinary:
+		return n.Op != "/" && n.Op != "%" && safeEager(n.X) && safeEager(n.Y)
+	case *SCond:
+		return safeEager(n.C) && safeEager(n.A) && safeEager(n.B)
+	}
+	return false
+}
+
 func flattenAnd(e SExpr) []SExpr {
 	if b, ok := e.(*SBinary); ok && b.Op == "&&" {
 		return append(flattenAnd(b.X), flattenAnd(b.Y)...)
@@ -585,6 +719,39 @@ func verifG_b64ok(s string) bool { _, err := base64.StdEncoding.DecodeString(s);
 func verifG_b64dec(s string) []byte { b, _ := base64.StdEncoding.DecodeString(s); return b }
 func verifG_b64enc(b []byte) string { return base64.StdEncoding.EncodeToString(b) }
 func verifIte(c bool, a, b func() any) any { if c { return a() }; return b() }
+func verifTern[T any](c bool, a, b T) T { if c { return a }; return b }
+func verifIsNil(a any) bool {
+	if a == nil { return true }
+	v := reflect.ValueOf(a)
+	switch v.Kind() { case reflect.Ptr, reflect.Slice, reflect.Map, reflect.Interface, reflect.Func, reflect.Chan: return v.IsNil() }
+	return false
+}
+// verifEqAny: == of the contract language on run-time values: identity for pointers, same nil-ness and elements for
+// slices, numeric equality across integer types, deep equality otherwise.
+func verifEqAny(a, b any) bool {
+	if verifIsNil(a) || verifIsNil(b) { return verifIsNil(a) && verifIsNil(b) }
+	va, vb := reflect.ValueOf(a), reflect.ValueOf(b)
+	isInt := func(k reflect.Kind) bool { return k >= reflect.Int && k <= reflect.Int64 }
+	isUint := func(k reflect.Kind) bool { return k >= reflect.Uint && k <= reflect.Uintptr }
+	switch {
+	case isInt(va.Kind()) && isInt(vb.Kind()): return va.Int() == vb.Int()
+	case isUint(va.Kind()) && isUint(vb.Kind()): return va.Uint() == vb.Uint()
+	case isInt(va.Kind()) && isUint(vb.Kind()): return va.Int() >= 0 && uint64(va.Int()) == vb.Uint()
+	case isUint(va.Kind()) && isInt(vb.Kind()): return vb.Int() >= 0 && uint64(vb.Int()) == va.Uint()
+	case va.Kind() == reflect.Ptr && vb.Kind() == reflect.Ptr: return va.Pointer() == vb.Pointer()
+	case va.Kind() == reflect.String && vb.Kind() == reflect.String: return va.String() == vb.String()
+	}
+	return reflect.DeepEqual(a, b)
+}
+type verifKS struct { key *rsa.PrivateKey; cert []byte; err error }
+func (k verifKS) GetKeyPair() (*rsa.PrivateKey, []byte, error) { return k.key, k.cert, k.err }
+var verifTestKey = func() *rsa.PrivateKey { k, err := rsa.GenerateKey(rand.Reader, 1024); if err != nil { panic(err) }; return k }()
+func verifG_kpKey(s dsig.X509KeyStore) *rsa.PrivateKey { if verifIsNil(s) { return nil }; k, _, _ := s.GetKeyPair(); return k }
+func verifG_kpCert(s dsig.X509KeyStore) []byte { if verifIsNil(s) { return nil }; _, c, _ := s.GetKeyPair(); return c }
+func verifG_kpErr(s dsig.X509KeyStore) error { if verifIsNil(s) { return nil }; _, _, e := s.GetKeyPair(); return e }
+func verifG_x509ok(der []byte) bool { _, err := x509.ParseCertificate(der); return err == nil }
+func verifG_x509NotBefore(der []byte) int64 { c, err := x509.ParseCertificate(der); if err != nil { return 0 }; return verifG_instant(c.NotBefore) }
+func verifG_x509NotAfter(der []byte) int64 { c, err := x509.ParseCertificate(der); if err != nil { return 0 }; return verifG_instant(c.NotAfter) }
 var _ = base64.StdEncoding
 var _ = types.Response{}
 var _ = dsig.NewFakeClockAt
@@ -615,7 +782,7 @@ func replayPrepare(o *Options, w *World, ob *Obligation) *replayPrep {
 func replayFill(o *Options, w *World, ob *Obligation, pr *replayPrep) bool {
 	res := pr.res
 	x := ob.ex
-	if x == nil || ob.Status != "failed" || ob.Script == nil {
+	if x == nil || (ob.Status != "failed" && ob.Status != "undecided") || ob.Script == nil {
 		return false
 	}
 	fn := x.top
@@ -683,8 +850,37 @@ func replayFill(o *Options, w *World, ob *Obligation, pr *replayPrep) bool {
 	asserts = append(asserts, Not(ob.Goal))
 	var out string
 	var sat bool
-	for _, bound := range []int64{2, 3, -1} {
-		as := append([]*Term{}, asserts...)
+	// Attempts: the full hypotheses with small / unbounded slices; then, when the solver gives no model (quantified
+	// hypotheses make it answer unknown), a CANDIDATE model of the quantifier-free part only (quantified axioms,
+	// invariants and the quantified parts of the goal dropped). A candidate counts for nothing by itself: it is
+	// reported only if the generated test reproduces the violation on the real code.
+	type attempt struct {
+		bound   int64
+		relaxed bool
+	}
+	attempts := []attempt{{2, false}, {3, false}, {-1, false}, {2, true}, {3, true}, {-1, true}}
+	if ob.Status == "undecided" {
+		attempts = attempts[3:]
+	}
+	for _, at := range attempts {
+		bound := at.bound
+		src := asserts
+		if at.relaxed {
+			src = nil
+			for _, a := range asserts {
+				if !termHasQuant(a, map[int]bool{}) {
+					src = append(src, a)
+				}
+			}
+			for _, q := range r.queries {
+				if q.K == KApp && strings.HasPrefix(q.Name, "len:") {
+					src = append(src, Ge(q, IntT(0)))
+				}
+			}
+			w.Reg.noQuantAxioms = true
+			res["replay_candidate_model"] = "model of the quantifier-free part of the hypotheses only; it is reported because the test below reproduces (or fails to reproduce) the violation on the real code"
+		}
+		as := append([]*Term{}, src...)
 		if bound > 0 {
 			for _, q := range r.queries {
 				if q.K == KApp && strings.HasPrefix(q.Name, "len:") {
@@ -693,6 +889,7 @@ func replayFill(o *Options, w *World, ob *Obligation, pr *replayPrep) bool {
 			}
 		}
 		sc := w.Reg.BuildScriptQ(as, r.queries)
+		w.Reg.noQuantAxioms = false
 		path := filepath.Join(o.verif, "out", "vc", "replay-"+fmt.Sprintf("%d", time.Now().UnixNano())+".smt2")
 		os.MkdirAll(filepath.Dir(path), 0o755)
 		os.WriteFile(path, []byte("(set-option :produce-models true)\n"+sc.Text), 0o644)
@@ -796,13 +993,39 @@ func replayFill(o *Options, w *World, ob *Obligation, pr *replayPrep) bool {
 			label = fmt.Sprintf("e%d", ci)
 		}
 		g.unsup = ""
+		before := g.helperKeys()
 		code := g.expr(c.Expr)
 		if g.unsup != "" {
+			g.dropHelpersExcept(before)
 			skipped = append(skipped, label+": "+g.unsup)
 			continue
 		}
 		checks = append(checks, fmt.Sprintf("\tif !(%s) { bad = append(bad, %q) }", code, label))
 	}
+	// preconditions: the input must satisfy every requires clause that has a run-time meaning (a full solver model
+	// does by construction; a candidate model need not). A candidate that cannot be checked against a quantified,
+	// untranslatable precondition is not replayed.
+	var pres []string
+	_, candidate := res["replay_candidate_model"]
+	for ci, c := range spec.Requires {
+		label := c.Label
+		if label == "" {
+			label = fmt.Sprintf("r%d", ci)
+		}
+		g.unsup = ""
+		before := g.helperKeys()
+		code := g.expr(c.Expr)
+		if g.unsup != "" {
+			g.dropHelpersExcept(before)
+			if candidate && strings.Contains(c.Text, "forall") {
+				res["replay_note"] = "candidate model not replayed: precondition " + label + " is quantified and has no run-time meaning"
+				return false
+			}
+			continue
+		}
+		pres = append(pres, fmt.Sprintf("	if !(%s) { t.Skipf(\"VERIF-REPLAY-PRECONDITION: the input does not satisfy precondition %%s\", %q) }", code, label))
+	}
+	g.unsup = ""
 	if len(checks) == 0 && !strings.HasPrefix(ob.Kind, "safe") {
 		res["replay_note"] = "no postcondition of this function has a run-time meaning: " + strings.Join(skipped, "; ")
 		return false
@@ -827,13 +1050,24 @@ func replayFill(o *Options, w *World, ob *Obligation, pr *replayPrep) bool {
 	src := fmt.Sprintf(`package %s
 
 import (
+	"crypto"
+	"crypto/rand"
+	"crypto/rsa"
+	"crypto/x509"
 	"encoding/base64"
+	"errors"
+	"reflect"
 	"testing"
 	"time"
 
 	"github.com/russellhaering/gosaml2/types"
 	dsig "github.com/russellhaering/goxmldsig"
 )
+
+var _ crypto.Signer
+var _ = errors.New
+var _ *rsa.PrivateKey
+var _ types.Response
 
 // generated by govc from the counterexample of obligation %s
 %s
@@ -845,6 +1079,7 @@ func TestVerifReplay(t *testing.T) {
 			t.Fatalf("VERIF-REPLAY-VIOLATION: the real code panics on the counterexample input: %%v", r)
 		}
 	}()
+%s
 	%s%s
 	%s
 	var bad []string
@@ -853,7 +1088,7 @@ func TestVerifReplay(t *testing.T) {
 		t.Fatalf("VERIF-REPLAY-VIOLATION: postcondition(s) %%v are false on the real code for the counterexample input", bad)
 	}
 }
-`, pkgName, ob.Func+"/"+ob.Name, replayRuntime, strings.Join(helpers, "\n"), strings.Join(decls, "\n"), lhs, call, strings.Join(use, "; "), strings.Join(checks, "\n"))
+`, pkgName, ob.Func+"/"+ob.Name, replayRuntime, strings.Join(helpers, "\n"), strings.Join(decls, "\n"), strings.Join(pres, "\n"), lhs, call, strings.Join(use, "; "), strings.Join(checks, "\n"))
 	dir := filepath.Join(o.verif, "out", "replays", "src")
 	os.MkdirAll(dir, 0o755)
 	base := strings.NewReplacer("/", "_", " ", "_", "*", "", "(", "", ")", "", "#", "-", "@", "-").Replace(ob.Func + "." + ob.Name)
@@ -876,7 +1111,7 @@ func replayRun(o *Options, pr *replayPrep) map[string]interface{} {
 	r := struct{ notes []string }{pr.notes}
 	ctx, cancel := context.WithTimeout(context.Background(), 180*time.Second)
 	defer cancel()
-	cmd := exec.CommandContext(ctx, "go", "test", "-overlay", ovPath, "-vet=off", "-count=1", "-timeout", "60s", "-run", "^TestVerifReplay$", ".")
+	cmd := exec.CommandContext(ctx, "go", "test", "-overlay", ovPath, "-vet=off", "-count=1", "-timeout", "60s", "-v", "-run", "^TestVerifReplay$", ".")
 	cmd.Dir = o.repo
 	cmd.Env = append(os.Environ(), "GOFLAGS=-mod=mod", "GOPROXY=off", "GOSUMDB=off", "GOTOOLCHAIN=local")
 	var tb bytes.Buffer
@@ -897,6 +1132,10 @@ func replayRun(o *Options, pr *replayPrep) map[string]interface{} {
 	case strings.Contains(tout, "VERIF-REPLAY-VIOLATION"):
 		res["replayed_on_real_code"] = true
 		res["reproduced"] = true
+	case strings.Contains(tout, "VERIF-REPLAY-PRECONDITION"):
+		res["replayed_on_real_code"] = false
+		res["reproduced"] = false
+		res["replay_note"] = "the candidate input does not satisfy the function's preconditions; not a counterexample"
 	case err == nil:
 		res["replayed_on_real_code"] = true
 		res["reproduced"] = false
